@@ -19,4 +19,11 @@ META = {
     "C05": dict(text="Every envelope reachable in the bounded machine is encoded and decoded (bytes / CBOR / UR variants); the decoded projection must be the source's abstract value and re-encode to the same bytes; leaf types come from a typed pool with independently written expected dCBOR.", note=TB, technique=T),
     "C07": dict(text="All insertion orders and repetitions within the bounds are executed; the specification's node is a set keyed by digest, so any order/route dependence of the real result shows as a digest or byte disagreement; source registers are compared bit for bit after every call.", note=TB, technique=T),
 }
+META.update({
+    "C08": dict(text="The AEAD is symbolic in the specification (opens iff same key, nothing authenticated altered); TLC checks encrypt/decrypt identity, wrong-key failure and refusal of double encryption as laws over every reachable register, and every transition (incl. forged content/digest pairs and tampered fields produced with the real primitives) is replayed against the crate.", note=TB, technique=T),
+    "C13": dict(text="TLC checks compress/uncompress identity, idempotence and digest preservation as laws over every reachable register and every chain within the bounds, with forged and corrupted containers built from the real DEFLATE primitive replayed against the crate.", note=TB, technique=T),
+    "C14": dict(text="Equivalence/identity are defined declaratively (digest equality; equality of the obscuration pattern); TLC checks that the operational structural image is injective on patterns, and every ordered pair of registers is compared through is_equivalent_to, is_identical_to, == and structural_digest (image evaluated by SHA-256).", note=TB, technique=T),
+    "C15": dict(text="The walks, digest sets, lookups and typed extraction are specified as recursive operators; for every shape and obscured variant in the bounds the real visitor sequence (digest, level, edge, parent), digest sets for every level limit, lookup answers/errors and extracted values are compared with the specification.", note=TB + " Two open findings in the dcbor dependency (D9a, D9b) are reported as KNOWN-FINDING.", technique=T),
+    "C16": dict(text="Every specification action is total (ok or err); every replayed call runs under catch_unwind and a panic is never an allowed outcome; inputs include decorated assertions, node-subject nodes and all obscuration patterns within the bounds.", note=TB + " Stack exhaustion on unbounded nesting is out of scope (the property bounds the depth).", technique=T),
+})
 NOT_YET = {}
